@@ -199,7 +199,7 @@ func postingsJSON(ps ledger.Postings) string {
 
 // ---------------------------------------------------------------------- C36 (numscript / request decoding part)
 
-const ruleC36E1 = "amounts from {0,1,2,99,100,2^53±1,2^63±1,2^64±1,10^30,random big} sent through five request forms decoded by the real API structs (bulking.TransactionRequest JSON): postings with a JSON-number amount, script literal, two literals of one asset in one script, monetary variable in string form, monetary variable as {asset, amount: <JSON number>} and {asset, amount: \"string\"}; executed on the machine runtime; the posting that comes out must carry exactly the integer that went in; non-trivial = amount above 2^53; distinct = by form+amount"
+const ruleC36E1 = "amounts from {0,1,2,99,100,2^53±1,2^63±1,2^64±1,10^30,random big} sent through five request forms decoded by the real API structs (bulking.TransactionRequest JSON): postings with a JSON-number amount, script literal, two literals of one asset in one script, monetary variable in string form, monetary variable as {asset, amount: <JSON number>} and {asset, amount: \"string\"}, and a script splitting the amount over three destinations (portions with numerators above 1, amounts also drawn within 3 of 2^52, 2^53, 2^61..2^64); executed on the machine runtime; the posting that comes out must carry exactly the integer that went in (the parts of a split must add up to it and each lie within one unit of its exact share); non-trivial = amount above 2^53; distinct = by form+amount"
 
 func TestC36(t *testing.T) {
 	st := stats.New("C36", "exploration", ruleC36E1)
@@ -212,7 +212,53 @@ func TestC36(t *testing.T) {
 		if rapid.Bool().Draw(rt, "edge") {
 			amount = new(big.Int).Set(rapid.SampledFrom(gen.EdgeAmounts).Draw(rt, "edgeAmount"))
 		}
-		form := rapid.SampledFrom([]string{"postings-number", "script-literal", "script-two-literals", "var-string", "var-object-number", "var-object-string"}).Draw(rt, "form")
+		form := rapid.SampledFrom([]string{"postings-number", "script-literal", "script-two-literals", "var-string", "var-object-number", "var-object-string", "script-allotment", "script-allotment"}).Draw(rt, "form")
+		if form == "script-allotment" {
+			// a split of the amount: the parts must add up to it exactly at any magnitude - in particular just below
+			// 2^63 / 2^64, where a product amount x numerator no longer fits a machine word
+			if rapid.IntRange(0, 2).Draw(rt, "nearWord") == 0 {
+				base := rapid.SampledFrom([]uint{52, 53, 61, 62, 63, 64}).Draw(rt, "wordBit")
+				amount = new(big.Int).Lsh(big.NewInt(1), base)
+				amount.Add(amount, big.NewInt(int64(rapid.IntRange(-3, 3).Draw(rt, "wordOffset"))))
+			}
+			split := rapid.SampledFrom([][]string{{"2/3", "1/6"}, {"33.33%", "12.345%"}, {"1/2", "1/4"}, {"66.67%", "0.01%"}, {"3/7", "2/7"}, {"99.9%", "0%"}}).Draw(rt, "split")
+			script := fmt.Sprintf("send [USD/2 %s] (\n source = @world\n destination = {\n  %s to @a\n  %s to @b\n  remaining to @c\n }\n)", amount, split[0], split[1])
+			runtime, err := ledgercontroller.NewDefaultNumscriptParser().Parse(script)
+			if err != nil {
+				rt.Fatalf("C36: script does not compile: %v\n%s", err, script)
+			}
+			res, err := runtime.Execute(context.Background(), &progStore{p: &Program{Balances: map[string]map[string]*big.Int{}, Meta: map[string]map[string]string{}}}, map[string]string{})
+			if err != nil {
+				rt.Fatalf("C36: %s split %v from @world: execution failed: %v", amount, split, err)
+			}
+			sum := new(big.Int)
+			got := map[string]*big.Int{"a": new(big.Int), "b": new(big.Int), "c": new(big.Int)}
+			for _, p := range res.Postings {
+				sum.Add(sum, p.Amount)
+				if got[p.Destination] != nil {
+					got[p.Destination].Add(got[p.Destination], p.Amount)
+				}
+				if p.Amount.Sign() < 0 {
+					rt.Fatalf("C36: %s split %v: negative posting %s", amount, split, postingsJSON(res.Postings))
+				}
+			}
+			if sum.Cmp(amount) != 0 {
+				rt.Fatalf("C36: %s split %v: the postings add up to %s: %s", amount, split, sum, postingsJSON(res.Postings))
+			}
+			for i, dst := range []string{"a", "b"} {
+				r := mustRat(split[i])
+				floor := new(big.Int).Mul(amount, r.Num())
+				floor.Quo(floor, r.Denom())
+				if d := new(big.Int).Sub(got[dst], floor); d.Sign() < 0 || d.Cmp(big.NewInt(1)) > 0 {
+					rt.Fatalf("C36: %s split %v: @%s receives %s, floor(amount x %s) is %s", amount, split, dst, got[dst], split[i], floor)
+				}
+			}
+			st.Case(form+amount.String()+strings.Join(split, "|"), amount.Cmp(two53) > 0, func() any {
+				return map[string]any{"form": form, "amount": amount.String(), "split": split}
+			}, "form:"+form)
+			st.Add("completed_checks", 1)
+			return
+		}
 		second := new(big.Int).Set(rapid.SampledFrom(gen.EdgeAmounts).Draw(rt, "secondAmount"))
 		var body string
 		switch form {
